@@ -1,7 +1,7 @@
 (* C18 — FIFO queue, wait-once and worker pool keep their contracts under concurrency. *)
 From Coq Require Import List Arith ZArith Bool.
 Import ListNotations.
-From VMQ Require Import gen.Extracted model.Queue proofs.QueueProofs.
+From VMQ Require Import gen.Extracted model.Queue proofs.QueueProofs model.Prims proofs.PrimsProofs.
 Local Open Scope nat_scope.
 
 (* the capacity constant the proofs rely on is the one in types/queue.go NOW *)
@@ -21,6 +21,49 @@ Proof.
   intros A nilv ops. destruct (new_inv nilv) as [Hi Ha]. rewrite <- Ha. apply queue_refines_list. exact Hi.
 Qed.
 Print Assumptions C18_queue_refines_list.
+
+(* WAIT-ONCE (types.OnceWait.Do; it guards connection close): for ANY number of concurrent callers and EVERY
+   schedule of their steps (lock, compare-and-swap, WaitGroup add / done / wait, unlock, the action itself):
+   the action is entered at most once, and a caller that has returned - with true or with false - has seen the
+   action finished, which then has run exactly once *)
+Theorem C18_oncewait_once_and_waits : forall n sched,
+  let s := orun (oinit n) sched in
+  ofcount s <= 1 /\
+  forall i pc, nth_error (opcs s) i = Some pc -> oreturned pc = true -> ofdone s = true /\ ofcount s = 1.
+Proof. exact oncewait_safe. Qed.
+Print Assumptions C18_oncewait_once_and_waits.
+
+(* ... and it never dead-locks: while some caller has not returned, some caller can make a step *)
+Theorem C18_oncewait_progress : forall n sched,
+  let s := orun (oinit n) sched in
+  (exists i pc, nth_error (opcs s) i = Some pc /\ oreturned pc = false) -> exists j, ostep s j <> s.
+Proof. exact oncewait_progress. Qed.
+Print Assumptions C18_oncewait_progress.
+
+(* WORKER POOL (types.Pool): for every sequence of Schedule calls (either branch of its select), worker steps and
+   Close, from an empty pool of any size and queue length: the number of live workers equals the tokens in the
+   semaphore and never exceeds the configured size, the queue never exceeds its capacity, and the accepted tasks
+   are, as a multiset, exactly the executed ones plus the queued ones plus the ones a worker is about to run -
+   no accepted task is lost or run twice *)
+Theorem C18_pool_bounded_and_exactly_once : forall size queue es,
+  let s := prun (pinit size queue) es in
+  psem s = cnt wlive (pworkers s) /\ psem s <= size /\ length (pwork s) <= queue /\
+  Permutation.Permutation (pexec s ++ pwork s ++ inflight s) (accepted es (pinit size queue)).
+Proof.
+  intros size queue es s. destruct (pool_run es (pinit size queue) (pinit_inv size queue)) as [[H1 H2 H3] HP].
+  assert (E : psize s = size /\ pqueue s = queue).
+  { subst s. clear. assert (G : forall es0 s0, psize (prun s0 es0) = psize s0 /\ pqueue (prun s0 es0) = pqueue s0).
+    { induction es0 as [|e r IH]; intros s0; cbn [prun]; [auto|]. destruct (pstep s0 e) as [s1|] eqn:Es; [|apply IH].
+      destruct (IH s1) as [A B]. rewrite A, B. clear - Es. destruct e as [t|t|i|]; cbn [pstep] in Es.
+      - destruct (_ && _); inversion Es; auto.
+      - destruct (_ && _); inversion Es; auto.
+      - destruct (nth_error (pworkers s0) i) as [[t| | |]|]; try discriminate; try (inversion Es; auto; fail).
+        destruct (pwork s0); [destruct (pclosed s0)|]; inversion Es; auto.
+      - destruct (pclosed s0); inversion Es; auto. }
+    apply (G es (pinit size queue)). }
+  destruct E as [E1 E2]. fold s in H1, H2, H3, HP. rewrite E1 in H2. rewrite E2 in H3. repeat split; assumption.
+Qed.
+Print Assumptions C18_pool_bounded_and_exactly_once.
 
 Example C18_nonvacuous :
   let ops := map OAdd (seq 1 40) ++ repeat ORemove 35 ++ [OLength; OPeek; OGet (-1)%Z; OGet 7%Z] in
